@@ -373,8 +373,152 @@ def input_kinds(args):
     return acc.export()
 
 
+def wide_pool(w):
+    """Rows for a terminal of w >= 24 columns: full-width rows ending in 0..w unformatted spaces, short rows, formatted tails."""
+    def cellsof(text, att=()):
+        return tuple((c, att) for c in text)
+
+    pool = [cellsof("x" * w), cellsof("x" * w, RED), ()]
+    for k in (0, 1, 3, w - 21, w - 20, w - 19, w - 1):
+        pool.append(cellsof("p" * k + " " * (w - k)))
+        pool.append(cellsof("p" * k))
+    pool.append(cellsof("ppp") + cellsof(" " * (w - 3), RED))
+    pool.append(cellsof("q" * (w - 22)) + cellsof(" ", RED) + cellsof(" " * 21))
+    return pool
+
+
+def sessions_wide(args):
+    """Terminals of 24 and 31 columns: every ordered pair of arrays over wide_pool (a full-width row ending in 20+ plain spaces over
+    earlier content, ...), directly and with a resize + junk in between."""
+    tier, seed, hide, h, w, part, nparts = args
+    acc = Acc(seed=seed, sample_stride=1999)
+    world = World(hide)
+    pool = wide_pool(w)
+    arrs = [tuple(pool[(i + j * 5) % len(pool)] for j in range(n)) for n in range(1, h + 1) for i in range(len(pool))]
+    st0 = world.initial(h, w)
+    w2 = w + 7
+    pool2 = wide_pool(w2)
+    arrs2 = [tuple(pool2[(i + j * 5) % len(pool2)] for j in range(n)) for n in range(1, h + 1) for i in range(len(pool2))]
+    for ai, A in enumerate(arrs):
+        if ai % nparts != part:
+            continue
+        term = world.load(st0)
+        try:
+            world.win.render_to_terminal(build_array(A), (0, 0))
+        except Exception as ex:  # noqa
+            acc.failure("C02:render_raises:" + type(ex).__name__, {"size": [h, w], "render": show_arr(A)}, repr(ex))
+            continue
+        check_screen(acc, term, A, (0, 0), hide, {"hide_cursor": hide, "size": [h, w], "history": [["init", h, w]], "render": show_arr(A), "cursor": [0, 0]}, 0)
+        stA = world.save()
+        for mode in ("direct", "resize_fill", "resize_keep"):
+            if mode == "direct":
+                stB, seconds, hw = stA, arrs, (h, w)
+            else:
+                term = world.load(stA)
+                term.resize(h, w2, mode.split("_")[1])
+                stB, seconds, hw = (WH.snapshot(world.win), term), arrs2, (h, w2)
+            for B in seconds:
+                term = world.load(stB)
+                term.scrolls = 0
+                sb = len(term.scrollback)
+                cur = (len(B) - 1, min(hw[1] - 1, len(B[-1])))
+                case = {"hide_cursor": hide, "size": list(hw), "history": [["init", h, w], ["render", show_arr(A), [0, 0]]] + ([["resize", h, w2, mode.split("_")[1]]] if mode != "direct" else []), "render": show_arr(B), "cursor": list(cur)}
+                acc.case(True, key=("wide", hide, h, w, A, mode, B), sample=case)
+                acc.transitions += 1
+                try:
+                    world.win.render_to_terminal(build_array(B), cur)
+                except TermError as ex:
+                    acc.failure("C02:unknown_terminal_sequence", case, repr(ex))
+                    continue
+                except Exception as ex:  # noqa
+                    acc.failure("C02:render_raises:" + type(ex).__name__, case, repr(ex))
+                    continue
+                if check_screen(acc, term, B, cur, hide, case, sb):
+                    acc.state(hash(("wide", term.canon())))
+    world.proxy.close()
+    return acc.export()
+
+
+def sessions_objects(args):
+    """The SAME FSArray objects rendered again and again, with lists rendered in between and with the arrays modified between
+    renders (region assignment; whole-row replacement through .rows): every history of <= 4 (5 thorough) actions."""
+    tier, seed, hide, part, nparts = args
+    from curtsies.formatstring import fmtstr
+    from curtsies.formatstringarray import fsarray
+
+    acc = Acc(seed=seed, sample_stride=1999)
+    world = World(hide)
+    h, w = 2, 3
+    depth = 5 if tier == "thorough" else 4
+    ACTIONS = ("render_X", "render_Y", "render_list", "render_empty", "assign_X", "replace_row_X", "grow_Y")
+
+    def cellsof(text, att=()):
+        return [(c, att) for c in text]
+
+    def run_history(hist):
+        world.initial(h, w)
+        term = world.proxy.term
+        X = fsarray([fmtstr("ab"), fmtstr("c", "red")])
+        Y = fsarray(["q", "rs"])
+        model = {"X": [cellsof("ab"), cellsof("c", RED)], "Y": [cellsof("q"), cellsof("rs")]}
+        steps = []
+        for k, act in enumerate(hist):
+            steps.append(act)
+            if act.startswith("render"):
+                if act == "render_X":
+                    real, want = X, model["X"]
+                elif act == "render_Y":
+                    real, want = Y, model["Y"]
+                elif act == "render_list":
+                    real, want = [fmtstr("zz", "red"), "y"], [cellsof("zz", RED), cellsof("y")]
+                else:
+                    real, want = [], []
+                term.scrolls = 0
+                sb = len(term.scrollback)
+                case = {"hide_cursor": hide, "size": [h, w], "history": steps[:-1], "render": act, "objects": "the same FSArray objects throughout the history"}
+                acc.transitions += 1
+                try:
+                    world.win.render_to_terminal(real, (0, 0))
+                except Exception as ex:  # noqa
+                    acc.failure("C02:render_raises:" + type(ex).__name__, case, repr(ex))
+                    return
+                want_t = tuple(tuple(r) for r in want)
+                if not check_screen(acc, term, want_t, (0, 0), hide, case, sb):
+                    return
+            elif act == "assign_X":
+                ch = "MNOPQ"[k % 5]
+                X[0:1, 1:2] = [ch]
+                model["X"][0] = model["X"][0][:1] + cellsof(ch) + model["X"][0][2:]
+            elif act == "replace_row_X":
+                ch = "uvwxyz"[k % 6]
+                X.rows[1] = fmtstr(ch * 2, "red")
+                model["X"][1] = cellsof(ch * 2, RED)
+            elif act == "grow_Y":
+                ch = "GHIJK"[k % 5]
+                Y[len(Y.rows) : len(Y.rows) + 1, 0:1] = [ch]
+                model["Y"] = model["Y"] + [cellsof(ch)]
+
+    n = 0
+    for d in range(1, depth + 1):
+        for hist in itertools.product(ACTIONS, repeat=d):
+            if not hist[-1].startswith("render"):
+                continue
+            n += 1
+            if n % nparts != part:
+                continue
+            acc.case(True, key=("objects", hide, hist), sample={"hide_cursor": hide, "size": [h, w], "history": list(hist)})
+            run_history(hist)
+    world.proxy.close()
+    return acc.export()
+
+
 def run(ctx):
     rep = Report()
+    wide = [(ctx.tier, ctx.seed, hide, h, w, p, 8) for hide in (True, False) for (h, w) in ((2, 24), (3, 31)) for p in range(8)]
+    for d in ctx.pmap(sessions_wide, wide):
+        rep.merge(d, "wide_terminals_pairs_of_renders")
+    for d in ctx.pmap(sessions_objects, [(ctx.tier, ctx.seed, hide, p, 8) for hide in (True, False) for p in range(8)]):
+        rep.merge(d, "same_fsarray_objects_rendered_again")
     configs = CONFIGS[ctx.tier]
     seen = {}
     frontier = {}
